@@ -273,7 +273,10 @@ func (fx *Fx) rootRead(st *State, l *Loc) Val {
 	case locHeap, locGlobal:
 		h := st.heap(l.key, "(Array Int "+l.srt+")")
 		v := Val{T: fmt.Sprintf("(select %s %s)", h, l.ref), S: l.srt, GT: l.T}
-		return fx.loaded(st, v)
+		fx.loadKey = l.key
+		v = fx.loaded(st, v)
+		fx.loadKey = ""
+		return v
 	case locElem:
 		h := st.heap(l.key, "(Array Int (Array Int "+l.srt+"))")
 		v := Val{T: fmt.Sprintf("(select (select %s %s) %s)", h, l.ref, l.idx), S: l.srt, GT: l.T}
@@ -295,6 +298,16 @@ func (fx *Fx) loaded(st *State, v Val) Val {
 	if v.GT == nil {
 		return v
 	}
+	if fx.loadKey != "" && fx.w.nonNilField(fx.loadKey) {
+		switch v.S {
+		case "Int":
+			st.assume(fmt.Sprintf("(not (= %s 0))", v.T))
+		case "Slice":
+			st.assume(fmt.Sprintf("(not (= (s_base %s) 0))", v.T))
+		case "Iface":
+			st.assume(fmt.Sprintf("(not (= (i_tag %s) 0))", v.T))
+		}
+	}
 	switch v.S {
 	case "Int", "Slice", "Iface":
 		t := fx.c.define("ld", v.S, v.T)
@@ -315,6 +328,9 @@ func (fx *Fx) loaded(st *State, v Val) Val {
 func (fx *Fx) readStructAt(st *State, ref string, t types.Type) Val {
 	s, named, _ := structOf(t)
 	srt := fx.c.sortOf(t)
+	if !strings.HasPrefix(srt, "S_") {
+		panic(unsupported{fmt.Sprintf("whole-struct read of opaque type %s at %s", t, fx.w.pos(fx.curPos))})
+	}
 	if s.NumFields() == 0 {
 		return Val{T: "mk_" + srt, S: srt, GT: t}
 	}
@@ -383,6 +399,20 @@ func (fx *Fx) writeLoc(st *State, l *Loc, v Val) {
 	case locHeap, locGlobal:
 		hs := "(Array Int " + l.srt + ")"
 		h := st.heap(l.key, hs)
+		if len(l.path) == 0 && fx.w.nonNilField(l.key) {
+			phi := ""
+			switch l.srt {
+			case "Int":
+				phi = fmt.Sprintf("(not (= %s 0))", v.T)
+			case "Slice":
+				phi = fmt.Sprintf("(not (= (s_base %s) 0))", v.T)
+			case "Iface":
+				phi = fmt.Sprintf("(not (= (i_tag %s) 0))", v.T)
+			}
+			if phi != "" {
+				c.oblige(st, "repinv", "nonnil("+l.key+")", phi, "field declared nonnil is assigned a non-nil value", fx.w.pos(fx.curPos))
+			}
+		}
 		st.setHeap(l.key, hs, fmt.Sprintf("(store %s %s %s)", h, l.ref, v.T))
 	case locElem:
 		hs := "(Array Int (Array Int " + l.srt + "))"
